@@ -284,6 +284,44 @@ def feed {G : Type} (ops : Ops G) (r : Nat) (isValid : G → Bool) :
     | .panic => .panic
     | .ok (st', _, _) => feed ops r isValid st' rest
 
+/-! ### `round1.Update` — block signature and random beacon together (`logical/round_sign_piece.go`) -/
+
+/-- What `round1` holds for one block: the generator of the block signature, the generator of the
+    random beacon, `bh.Signature`, `bh.Random` (`none` = not set yet) and `canProcessed`. -/
+structure Round1 (G : Type) where
+  g : SignGen G
+  r : SignGen G
+  blockSig : Option G
+  blockRandom : Option G
+  canProcessed : Bool
+  deriving DecidableEq
+
+/-- `round1.Start`: both generators get the same threshold. -/
+def Round1.start {G : Type} (k : Nat) : Round1 G := ⟨SignGen.new k, SignGen.new k, none, none, false⟩
+
+/-- The part of `round1.Update` that touches the generators. `checked` stands for all the guards in
+    front of it (block exists, sender's key known, piece signed over this block's hash, both
+    signatures verify — C15's subject); `rsig = none` is the guard `sig == nil || sig.IsNil()` on the
+    random-beacon share. Then: the block-signature share goes to `gSignGenerator`; if it was not added
+    (already recovered, or this sender already present) NOTHING else happens; otherwise the beacon share
+    goes to `rSignGenerator`, and only if `radd && generate && rgen` the header fields are written and
+    `canProcessed` is set. -/
+def round1Update {G : Type} (ops : Ops G) (r : Nat) (isValid : G → Bool) (st : Round1 G)
+    (id : Nat) (sig rsig : Option G) (checked : Bool)
+    (cg cr : Choice (Nat × Option G)) : Res (Round1 G) :=
+  if !checked || rsig.isNone then .ok st
+  else
+    match addWitnessSign ops r isValid st.g id sig cg with
+    | .panic => .panic
+    | .ok (g', add, generate) =>
+      if !add then .ok ⟨g', st.r, st.blockSig, st.blockRandom, st.canProcessed⟩
+      else
+        match addWitnessSign ops r isValid st.r id rsig cr with
+        | .panic => .panic
+        | .ok (r', radd, rgen) =>
+          if radd && generate && rgen then .ok ⟨g', r', g'.groupSign, r'.groupSign, true⟩
+          else .ok ⟨g', r', st.blockSig, st.blockRandom, st.canProcessed⟩
+
 /-! ### `GetGroupK` -/
 
 /-- Bit length (`0` for `0`). -/
